@@ -24,6 +24,8 @@ pub struct SMsg {
 pub struct Case {
     /// (ecu, start_time)
     pub table: Vec<(usize, u64)>,
+    /// (j, i): table entry j is a lifecycle the detector created as a resume of entry i (i < j, same ECU)
+    pub resumes: Vec<(usize, usize)>,
     pub msgs: Vec<SMsg>,
     pub window: u8,
     pub min_delay_us: u64,
@@ -40,6 +42,21 @@ pub fn gen_case(rng: &mut Rng, thorough: bool) -> Case {
         // parallel lifecycles: starts within a small range (or far apart)
         let start = base + if rng.chance(1, 2) { rng.below(30 * US) } else { rng.below(3000 * US) };
         table.push((ecu, start / 100 * 100));
+    }
+    // resume lifecycles (as Lifecycle::update creates them after a reception gap), in 2/3 of them with a start at or
+    // before the start of the lifecycle they resume: the calculated time is still "start of the message's lifecycle + timestamp"
+    let mut resumes = Vec::new();
+    if rng.chance(1, 3) {
+        for j in 1..n_lcs {
+            if let Some(i) = (0..j).find(|i| table[*i].0 == table[j].0 && !resumes.iter().any(|(r, _)| r == i)) {
+                if rng.chance(1, 2) {
+                    resumes.push((j, i));
+                    if rng.chance(2, 3) {
+                        table[j].1 = (table[i].1 - rng.below(8 * US) * rng.below(2)) / 100 * 100;
+                    }
+                }
+            }
+        }
     }
     let window = *rng.pick(&[1u8, 1, 2, 3, 3, 5, 10]);
     let min_delay_us = *rng.pick(&[0u64, 1, 100, 1000, 100_000, US, 2 * US, 20 * US, 30 * US]);
@@ -72,10 +89,11 @@ pub fn gen_case(rng: &mut Rng, thorough: bool) -> Case {
     if premise || rng.chance(1, 2) {
         msgs.sort_by_key(|m| m.recv_us); // stable
     }
-    Case { table, msgs, window, min_delay_us, premise_by_construction: premise }
+    Case { table, resumes, msgs, window, min_delay_us, premise_by_construction: premise }
 }
 
 pub struct Built {
+    pub resume_lcs_in_table: usize,
     pub lc_ids: Vec<u32>,
     pub starts: HashMap<u32, u64>,
     pub input: Vec<DltMessage>,
@@ -85,22 +103,45 @@ pub fn run_sort(c: &Case) -> Result<(Built, Vec<DltMessage>, bool), crate::guard
     let (lcs_r, mut lcs_w) = new_table();
     let mut lc_ids = Vec::new();
     let mut starts = HashMap::new();
-    for (ecu, start) in &c.table {
-        let mut m = DltMessage {
-            index: 0,
-            reception_time_us: *start,
-            ecu: ecu_id(*ecu),
-            timestamp_dms: 0,
-            standard_header: DltStandardHeader { htyp: 0x30, mcnt: 0, len: 8 },
-            extended_header: None,
-            payload: vec![],
-            payload_text: None,
-            lifecycle: 0,
+    let mk = |ecu: usize, recv: u64, ts_dms: u32| DltMessage {
+        index: 0,
+        reception_time_us: recv,
+        ecu: ecu_id(ecu),
+        timestamp_dms: ts_dms,
+        standard_header: DltStandardHeader { htyp: 0x30, mcnt: 0, len: 8 },
+        extended_header: None,
+        payload: vec![],
+        payload_text: None,
+        lifecycle: 0,
+    };
+    let mut lcs: Vec<Lifecycle> = Vec::new();
+    let mut resume_lcs_in_table = 0;
+    for (j, (ecu, start)) in c.table.iter().enumerate() {
+        let mut lc = match c.resumes.iter().find(|(r, _)| *r == j) {
+            Some((_, i)) => {
+                // 20 s later in reception, 1 s later in uptime: the detector's own resume detection creates the lifecycle
+                let mut m = mk(*ecu, lcs[*i].start_time + 20 * US, 10_000);
+                let origin = &mut lcs[*i];
+                match origin.update(&mut m, 60 * US) {
+                    Some(l) => l,
+                    None => Lifecycle::new(&mut mk(*ecu, *start, 0)),
+                }
+            }
+            None => Lifecycle::new(&mut mk(*ecu, *start, 0)),
         };
-        let mut lc = Lifecycle::new(&mut m);
         lc.start_time = *start;
+        if lc.is_resume() {
+            resume_lcs_in_table += 1;
+        }
+        lcs.push(lc);
+    }
+    // the resumed lifecycles keep the start of the table (update() does not move it for a message that opens a new lifecycle)
+    for (j, (_, start)) in c.table.iter().enumerate() {
+        lcs[j].start_time = *start;
+    }
+    for lc in lcs {
         lc_ids.push(lc.id());
-        starts.insert(lc.id(), *start);
+        starts.insert(lc.id(), lc.start_time);
         lcs_w.insert(lc.id(), lc);
     }
     lcs_w.refresh();
@@ -148,7 +189,7 @@ pub fn run_sort(c: &Case) -> Result<(Built, Vec<DltMessage>, bool), crate::guard
         )
     })?;
     drop(lcs_w);
-    Ok((Built { lc_ids, starts, input }, out.into_inner(), res.is_ok()))
+    Ok((Built { resume_lcs_in_table, lc_ids, starts, input }, out.into_inner(), res.is_ok()))
 }
 
 fn calc_time(m: &DltMessage, starts: &HashMap<u32, u64>) -> u64 {
@@ -206,12 +247,13 @@ pub fn check(c: &Case, b: &Built, out: &[DltMessage]) -> (Option<(String, String
 }
 
 fn case_json(c: &Case) -> serde_json::Value {
-    json!({"kind":"c10","window": c.window, "min_delay_us": c.min_delay_us, "table": c.table.iter().map(|(e, s)| json!([e, s])).collect::<Vec<_>>(),
+    json!({"kind":"c10","window": c.window, "min_delay_us": c.min_delay_us, "resumes": c.resumes.iter().map(|(j, i)| json!([j, i])).collect::<Vec<_>>(), "table": c.table.iter().map(|(e, s)| json!([e, s])).collect::<Vec<_>>(),
         "msgs": c.msgs.iter().map(|m| json!([if m.lc == usize::MAX { -1 } else { m.lc as i64 }, m.ecu, m.ts_us, m.recv_us, m.ctrl_request as u8])).collect::<Vec<_>>()})
 }
 fn case_from_json(r: &serde_json::Value) -> Case {
     Case {
         table: r["table"].as_array().unwrap().iter().map(|t| (t[0].as_u64().unwrap() as usize, t[1].as_u64().unwrap())).collect(),
+        resumes: r["resumes"].as_array().map(|a| a.iter().map(|t| (t[0].as_u64().unwrap() as usize, t[1].as_u64().unwrap() as usize)).collect()).unwrap_or_default(),
         msgs: r["msgs"].as_array().unwrap().iter().map(|m| SMsg { lc: if m[0].as_i64().unwrap() < 0 { usize::MAX } else { m[0].as_i64().unwrap() as usize }, ecu: m[1].as_u64().unwrap() as usize, ts_us: m[2].as_u64().unwrap(), recv_us: m[3].as_u64().unwrap(), ctrl_request: m[4].as_u64().unwrap() != 0 }).collect(),
         window: r["window"].as_u64().unwrap() as u8,
         min_delay_us: r["min_delay_us"].as_u64().unwrap(),
@@ -253,7 +295,11 @@ pub fn run(p: &Params) -> Report {
                 let (v, premise, reordered) = check(&c, &b, &out);
                 if premise {
                     rep.inc("runs_with_premise_satisfied");
+                    if b.resume_lcs_in_table > 0 && c.resumes.iter().any(|(j, i)| c.table[*j].1 <= c.table[*i].1 && c.msgs.iter().any(|m| m.lc == *j)) {
+                        rep.inc("premise_runs_with_resume_lifecycle_starting_before_the_resumed_one");
+                    }
                 }
+                rep.add("resume_lifecycles_in_table", b.resume_lcs_in_table as u64);
                 if reordered {
                     rep.inc("runs_where_sorting_reordered");
                 }
